@@ -55,6 +55,7 @@ type verifC15StoreState struct {
 	stored map[string]verifc15.Entry // model of what the store accepted, by kind/name
 	broken map[string]string         // service -> error, only behind a tolerated known finding
 	all    []verifc15.Entry          // every entry ever offered (for the shape labels)
+	dump   []string                  // dump of the current state, nil when not yet taken
 }
 
 var verifC15Once sync.Once
@@ -229,7 +230,10 @@ func verifC15Step(f verifkit.F, c *verifkit.Case, st *verifC15StoreState, op ver
 	default:
 		return
 	}
-	before := verifC15Dump(st.s)
+	if st.dump == nil {
+		st.dump = verifC15Dump(st.s)
+	}
+	before := st.dump
 	beforeModel := map[string]verifc15.Entry{}
 	for k, v := range st.stored {
 		beforeModel[k] = v
@@ -242,6 +246,7 @@ func verifC15Step(f verifkit.F, c *verifkit.Case, st *verifC15StoreState, op ver
 		return nil, st.s.DeleteConfigEntry(st.idx, op.Entry.Kind, op.Entry.Name, structs.DefaultEnterpriseMetaInDefaultPartition())
 	})
 	if o.Panic != "" {
+		st.dump = nil
 		c.Violation(f, "C15/panic/"+o.Site, "%s %s panicked: %s", op.Op, op.Entry.Key(), o.Panic)
 		return
 	}
@@ -249,11 +254,13 @@ func verifC15Step(f verifkit.F, c *verifkit.Case, st *verifC15StoreState, op ver
 		c.Label(op.Op + "-rejected")
 		c.Label("reject=" + verifc15.ErrKind(o.Err))
 		after := verifC15Dump(st.s)
+		st.dump = after
 		if d := verifC15DumpDiff(before, after); d != "" {
 			c.Violation(f, "C15/rejected-write-changed-store", "%s %s was rejected (%v) but the store changed:\n%s", op.Op, op.Entry.Key(), o.Err, d)
 		}
 		return
 	}
+	st.dump = nil
 	c.Label(op.Op + "-accepted")
 	_, existed := st.stored[op.Entry.Key()]
 	if op.Op == "upsert" {
@@ -353,6 +360,7 @@ func verifC15Finish(c *verifkit.Case, st *verifC15StoreState) {
 func TestVerifC15Store(t *testing.T) {
 	rec := verifkit.For("C15")
 	defer rec.Flush()
+	verifc15.TuneGC()
 	rapid.Check(t, func(t *rapid.T) {
 		c := rec.NewCase()
 		c.Label("mode=store")
@@ -404,16 +412,37 @@ func verifC15Keys(m map[string]verifc15.Entry) []string {
 }
 
 // TestVerifC15StoreExhaustive writes EVERY set of <= 3 entries of the reduced grammar over two services in EVERY
-// order, then deletes the entries again in the same order, through the same step oracle.
+// order, then deletes the entries again in the same order, through the same step oracle. The thorough tier adds
+// every set of 4 entries in 5 orders (the rotations and the reversal).
 func TestVerifC15StoreExhaustive(t *testing.T) {
 	rec := verifkit.For("C15")
 	defer rec.Flush()
+	verifc15.TuneGC()
 	max := verifkit.EnvInt("VERIF_C15_EXH_MAX", 3)
+	if verifkit.Thorough() {
+		max = verifkit.EnvInt("VERIF_C15_EXH_MAX", 4)
+	}
 	shard, nshards := verifc15.ShardOf()
 	slots := verifc15.SmallSlots("web", "api")
 	perms := map[int][][]int{}
 	for n := 1; n <= max; n++ {
-		perms[n] = verifc15.Permutations(n)
+		if n <= 3 {
+			perms[n] = verifc15.Permutations(n) // every write order
+			continue
+		}
+		// larger sets (thorough tier): the n rotations and the reversal
+		for r := 0; r < n; r++ {
+			var p []int
+			for i := 0; i < n; i++ {
+				p = append(p, (i+r)%n)
+			}
+			perms[n] = append(perms[n], p)
+		}
+		var rev []int
+		for i := n - 1; i >= 0; i-- {
+			rev = append(rev, i)
+		}
+		perms[n] = append(perms[n], rev)
 	}
 	var sets, histories int64
 	total := verifc15.EnumSets(slots, max, func(idx int, set []verifc15.Entry) {
@@ -443,6 +472,7 @@ func TestVerifC15StoreExhaustive(t *testing.T) {
 		}
 	})
 	rec.AddExtraInt("exhaustive_small_sets_store", sets)
+	rec.SetExtra("exhaustive_small_sets_store_max_entries", fmt.Sprint(max))
 	rec.AddExtraInt("exhaustive_small_set_write_orders", histories)
 	t.Logf("exhaustive: %d of %d sets (<= %d entries), %d write orders, shard %d/%d", sets, total, max, histories, shard, nshards)
 }
@@ -451,6 +481,7 @@ func TestVerifC15StoreExhaustive(t *testing.T) {
 func TestVerifC15Replay(t *testing.T) {
 	rec := verifkit.For("C15")
 	defer rec.Flush()
+	verifc15.TuneGC()
 	for _, path := range verifkit.ReplayFiles("C15") {
 		rp, err := verifkit.LoadReplay(path)
 		if err != nil {
